@@ -186,3 +186,80 @@ class CursorSpy(RowSpy):
             canv = urwid.CompositeCanvas(canv)
             canv.cursor = (0, self.crow)
         return canv
+
+
+POSITION_SCHEMES = {
+    "offset1": lambda i: i + 1,  # 1-based record numbers
+    "offset1000": lambda i: i + 1000,
+    "negative": lambda i: i - 500,
+    "stride10": lambda i: 10 * i,
+    "str": lambda i: f"k{i:04d}",
+    "tuple": lambda i: (i // 3, i % 3),
+}
+
+
+class KeyedWalker(urwid.ListWalker):
+    """A user list walker implementing the documented interface (get_focus / set_focus / get_next / get_prev /
+    positions, sized) over a python list of widgets, whose POSITIONS are not 0-based indexes: position of the
+    i-th item = scheme(i) (ints with an offset or a stride, strings, tuples).  Supports insert / delete / len /
+    iteration for the harness; the focus sticks to its item like a list focus would."""
+
+    def __init__(self, widgets, scheme):
+        self.widgets = list(widgets)
+        self.scheme = scheme
+        self.key = POSITION_SCHEMES[scheme]
+        self.fidx = 0
+
+    # ---- sized / iterable (harness and relative-scroll protocol)
+    def __len__(self):
+        return len(self.widgets)
+
+    def __iter__(self):
+        return iter(list(self.widgets))
+
+    def _index(self, position):
+        for i in range(len(self.widgets)):
+            if self.key(i) == position:
+                return i
+        return None
+
+    def _at(self, i):
+        if i is None or not 0 <= i < len(self.widgets):
+            return None, None
+        return self.widgets[i], self.key(i)
+
+    # ---- walker interface
+    def get_focus(self):
+        return self._at(self.fidx if self.widgets else None)
+
+    def set_focus(self, position):
+        i = self._index(position)
+        if i is None:
+            raise IndexError(f"no position {position!r}")
+        self.fidx = i
+        self._modified()
+
+    def get_next(self, position):
+        i = self._index(position)
+        return self._at(None if i is None else i + 1)
+
+    def get_prev(self, position):
+        i = self._index(position)
+        return self._at(None if i is None else i - 1)
+
+    def positions(self, reverse=False):
+        ks = [self.key(i) for i in range(len(self.widgets))]
+        return reversed(ks) if reverse else ks
+
+    # ---- content changes
+    def insert(self, i, widget):
+        self.widgets.insert(i, widget)
+        if i <= self.fidx and len(self.widgets) > 1:
+            self.fidx += 1
+        self._modified()
+
+    def __delitem__(self, i):
+        del self.widgets[i]
+        if i < self.fidx or self.fidx >= len(self.widgets):
+            self.fidx = max(0, self.fidx - 1)
+        self._modified()
